@@ -309,7 +309,7 @@ func (c *Ctx) nilOKScan(fns []*ssa.Function, report func(fn *ssa.Function, r *ss
 		if n < 2 {
 			continue
 		}
-		if b, ok := res.At(n-1).Type().Underlying().(*types.Basic); !ok || b.Kind() != types.Bool {
+		if b, ok := res.At(n - 1).Type().Underlying().(*types.Basic); !ok || b.Kind() != types.Bool {
 			continue
 		}
 		hasNillable := false
@@ -358,7 +358,7 @@ func ruleNilOK(c *Ctx) {
 	for _, fn := range fns {
 		sig := fn.Signature.Results()
 		if sig.Len() >= 2 && !flagged[fn] {
-			if b, ok := sig.At(sig.Len()-1).Type().Underlying().(*types.Basic); ok && b.Kind() == types.Bool {
+			if b, ok := sig.At(sig.Len() - 1).Type().Underlying().(*types.Basic); ok && b.Kind() == types.Bool {
 				for i := 0; i < sig.Len()-1; i++ {
 					if nillable(sig.At(i).Type()) {
 						c.ok(fname(fn), c.pos(fn.Pos()), fname(fn), "no (nil, true) return")
@@ -858,23 +858,23 @@ var reviewedPanicFuncs = map[string]struct {
 	kind string
 	why  string
 }{
-	"logx.Panic":                         {"primitive", ""},
-	"logx.PanicOnError":                  {"primitive", ""},
-	"op.MustNewScale":                    {"wrapper", ""},
-	"op.MustParseKey":                    {"wrapper", ""},
-	"op.MustNewMeter":                    {"wrapper", ""},
-	"note.MustNewValue":                  {"wrapper", ""},
-	"note.MustNewDegree":                 {"wrapper", ""},
-	"util.MustInverseMap":                {"wrapper", ""},
-	"util.MustNewRing":                   {"wrapper", ""},
-	"chord.BasicChords":                  {"guarded", "panics only if the embedded chord.yml does not parse/validate: TAB-CHORDS parses it and checks Chord.validate's conditions on every entry"},
-	"chord.BasicAttributes":              {"guarded", "panics only if the embedded attribute.yml does not parse/validate: TAB-ATTRS parses it and compares it with the generator"},
-	"note.Name.Semitone":                 {"guarded", "panics on UnknownName: every producer of a Name (note.NewName call sites) is regex-guarded or checks for UnknownName (inventory below)"},
-	"note.Name.AddDegree":                {"guarded", "panics on UnknownName; same producer inventory as Name.Semitone"},
-	"note.Accidental.Semitone":           {"guarded", "panics on UnknownAccidental: note.NewAccidental is only called on a regex-guarded, non-empty [#b] match"},
-	"note.CoerceDegreeName.String":       {"guarded", "panics on the Unknown coercion, i.e. for a Degree that failed validation; degrees are produced by ParseDegree / NewDegree / CoerceDegreeName.Degree which return ok=false instead, and the zero Degree of an absent YAML key is refused before anything is printed (LOOKUP degree-present)"},
-	"midix.TrackNoSelectorImpl.Select":   {"guarded", "panics on an OpType other than MetaTrack / FixedTrack; the marker interface has exactly these two implementations (OPMAP checks the allocation sites)"},
-	"input/ast.VisitSwitch":              {"guarded", "panics on a node type outside the ten AST types; all arguments are fields of AST nodes built by the generated parser"},
+	"logx.Panic":                       {"primitive", ""},
+	"logx.PanicOnError":                {"primitive", ""},
+	"op.MustNewScale":                  {"wrapper", ""},
+	"op.MustParseKey":                  {"wrapper", ""},
+	"op.MustNewMeter":                  {"wrapper", ""},
+	"note.MustNewValue":                {"wrapper", ""},
+	"note.MustNewDegree":               {"wrapper", ""},
+	"util.MustInverseMap":              {"wrapper", ""},
+	"util.MustNewRing":                 {"wrapper", ""},
+	"chord.BasicChords":                {"guarded", "panics only if the embedded chord.yml does not parse/validate: TAB-CHORDS parses it and checks Chord.validate's conditions on every entry"},
+	"chord.BasicAttributes":            {"guarded", "panics only if the embedded attribute.yml does not parse/validate: TAB-ATTRS parses it and compares it with the generator"},
+	"note.Name.Semitone":               {"guarded", "panics on UnknownName: every producer of a Name (note.NewName call sites) is regex-guarded or checks for UnknownName (inventory below)"},
+	"note.Name.AddDegree":              {"guarded", "panics on UnknownName; same producer inventory as Name.Semitone"},
+	"note.Accidental.Semitone":         {"guarded", "panics on UnknownAccidental: note.NewAccidental is only called on a regex-guarded, non-empty [#b] match"},
+	"note.CoerceDegreeName.String":     {"guarded", "panics on the Unknown coercion, i.e. for a Degree that failed validation; degrees are produced by ParseDegree / NewDegree / CoerceDegreeName.Degree which return ok=false instead, and the zero Degree of an absent YAML key is refused before anything is printed (LOOKUP degree-present)"},
+	"midix.TrackNoSelectorImpl.Select": {"guarded", "panics on an OpType other than MetaTrack / FixedTrack; the marker interface has exactly these two implementations (OPMAP checks the allocation sites)"},
+	"input/ast.VisitSwitch":            {"guarded", "panics on a node type outside the ten AST types; all arguments are fields of AST nodes built by the generated parser"},
 }
 
 // reviewedMustSites: non-constant call sites of wrappers outside initialisers, with the invariant another rule checks.
@@ -886,10 +886,10 @@ var reviewedMustSites = map[string]string{
 
 // reviewedNameProducers: call sites of note.NewName (the only string -> Name conversion) with their guard.
 var reviewedNameProducers = map[string]string{
-	"op.ParseKey":                                  "argument is capture 1 of keyRegex = [A-G] (TAB-REGEX)",
-	"note.ParseNote":                               "argument is capture 1 of noteRegex = [A-G] (TAB-REGEX)",
-	"astconv.SyllableChordConverter.newScaleNote":  "result compared with UnknownName, error returned",
-	"astconv.ASTTypeClassifier.degreeType":         "result only compared with UnknownName",
+	"op.ParseKey":    "argument is capture 1 of keyRegex = [A-G] (TAB-REGEX)",
+	"note.ParseNote": "argument is capture 1 of noteRegex = [A-G] (TAB-REGEX)",
+	"astconv.SyllableChordConverter.newScaleNote": "result compared with UnknownName, error returned",
+	"astconv.ASTTypeClassifier.degreeType":        "result only compared with UnknownName",
 }
 
 func (c *Ctx) panicPrimitiveCall(ci ssa.CallInstruction) bool {
@@ -1039,7 +1039,7 @@ func (c *Ctx) allConstArgs(cc *ssa.CallCommon) bool {
 var reviewedCycles = map[string]string{
 	"input/ast.IterVisitor.VisitChord,input/ast.IterVisitor.VisitChordBase,input/ast.IterVisitor.VisitChordList,input/ast.IterVisitor.VisitChordMeta,input/ast.IterVisitor.VisitChordValues,input/ast.IterVisitor.VisitRest,input/ast.VisitSwitch,input/ast.MapVisitor.VisitChord,input/ast.MapVisitor.VisitChordBase,input/ast.MapVisitor.VisitChordList,input/ast.MapVisitor.VisitChordMeta,input/ast.MapVisitor.VisitChordValues,input/ast.MapVisitor.VisitRest": "visitors over the finite AST (depth <= 4: list, chord, base/values/meta, leaf)",
 	"input/ast.LexScanner.ScanFunc": "re-enters itself after a `;` comment; each level consumes at least the `;` (and, by EOFPRED, the comment loop stops at end of input)",
-	"chord.Map.GetChordAttributes":     "follows `extends`; acyclic because Map.validate rejects cyclic extends and NewMap is the only constructor (checked below)",
+	"chord.Map.GetChordAttributes":  "follows `extends`; acyclic because Map.validate rejects cyclic extends and NewMap is the only constructor (checked below)",
 }
 
 func ruleRecur(c *Ctx) {
@@ -1344,7 +1344,7 @@ var errDropLib = map[string]bool{
 }
 
 var reviewedErrDrops = map[string]string{
-	"op.AllScales -> op.NewScale": "keys are the keys of keySignatures itself, NewScale cannot miss",
+	"op.AllScales -> op.NewScale":                            "keys are the keys of keySignatures itself, NewScale cannot miss",
 	"desc.Chord.Describe -> chord.Mapper.GetChordAttributes": "",
 }
 
